@@ -38,6 +38,11 @@ class CtxTr:
 
     def __init__(self, mode, env):
         self.mode, self.env = mode, dict(env)     # env: local name -> (lean, kind)
+        self.may_raise = False     # a statement that can raise was emitted: what follows runs only if it did not
+
+    def guard(self, var, new):
+        """`var` keeps its value when an earlier statement raised"""
+        return f"(if raised then {var} else {new})" if self.may_raise else new
 
     def inst_attr(self, e):
         """the instance attribute an expression denotes, or None"""
@@ -134,12 +139,12 @@ class CtxTr:
                     vs, vk = f"(some {vs})", "ODef"
                 if vk != want:
                     raise Untranslatable(f"{u}: kind {vk}, {want} expected")
-                upd = f"let inst := {{ inst with {a} := {vs}" + (", fresh := inst.fresh + 1" if fr else "") + " }\n"
-                return upd + more()
+                new = f"{{ inst with {a} := {vs}" + (", fresh := inst.fresh + 1" if fr else "") + " }"
+                return f"let inst := {self.guard('inst', new)}\n" + more()
             if f:
                 if vk != H_FIELDS[f] or fr:
                     raise Untranslatable(f"{u}: kind {vk}, {H_FIELDS[f]} expected")
-                return f"let h := {{ h with {f} := {vs} }}\n" + more()
+                return f"let h := {self.guard('h', '{ h with ' + f + ' := ' + vs + ' }')}\n" + more()
             if isinstance(t, ast.Name) and vk == "INST":
                 self.env[t.id] = ("inst", "INST")     # an alias of the instance object
                 return more()
@@ -152,18 +157,27 @@ class CtxTr:
             fu = ast.unparse(c.func)
             if self.mode == "handler" and fu in ("self.pool.close", "self.pool.join") and not c.args and not c.keywords:
                 ev = "Model.PoolEv.close" if fu.endswith("close") else "Model.PoolEv.join"
-                return (f"let (events, attr_error) := (match h.pool with\n  | some pool => (events ++ [{ev} pool], attr_error)\n"
-                        f"  | none => (events, true))\n" + more())
-            if self.mode == "instance" and fu == "delattr" and len(c.args) == 2 and ast.unparse(c.args[0]) == "self" \
+                flag = "h.close_raises" if fu.endswith("close") else "h.join_raises"
+                # the call raises when there is no pool (AttributeError) or when the pool's shutdown fails; nothing after it runs then
+                new = (f"(match h.pool with\n  | some pool => if {flag} then (events, true) else (events ++ [{ev} pool], false)\n"
+                       f"  | none => (events, true))")
+                out = f"let (events, raised) := {self.guard('(events, raised)', new)}\n"
+                self.may_raise = True
+                return out + more()
+            if self.mode == "instance" and fu == "delattr" and not self.may_raise and len(c.args) == 2 and ast.unparse(c.args[0]) == "self" \
                     and isinstance(c.args[1], ast.Constant) and INST_ATTRS.get(c.args[1].value) == "ODef":
                 return f"let inst := {{ inst with {c.args[1].value} := none }}\n" + more()
             raise Untranslatable(f"statement {u[:80]}")
         if isinstance(st, ast.If):
             c = self.cond(st.test)
-            tup = "(h, inst, events, attr_error)" if self.mode == "handler" else "inst"
+            tup = "(h, inst, events, raised)" if self.mode == "handler" else "inst"
             fin = lambda: tup   # noqa: E731
+            guarded = self.may_raise
             a = self.block(st.body, fin)
+            ra = self.may_raise
+            self.may_raise = guarded
             b = self.block(st.orelse, fin)
+            self.may_raise = self.may_raise or ra
             if c[0] == "bool":
                 body = f"(if {c[1]} then\n{indent(a)}\nelse\n{indent(b)})"
             else:
@@ -171,6 +185,8 @@ class CtxTr:
                 # inside the `some` arm a local name keeps denoting the same optional (no rebinding needed: the arms only copy it)
                 some_arm, none_arm = (b, a) if is_none else (a, b)
                 body = f"(match {s} with\n| none =>\n{indent(none_arm)}\n| some _ =>\n{indent(some_arm)})"
+            if guarded:
+                body = f"(if raised then {tup} else {body})"
             return f"let {tup} := {body}\n" + more()
         raise Untranslatable(f"statement {u[:80]}")
 
@@ -196,18 +212,19 @@ def translate(tr, name, spec, fn) -> str:
             if any(isinstance(n, ast.Return) and n.value is not None and not (isinstance(n.value, ast.Constant) and n.value.value in (None, False))
                    for n in ast.walk(fn)):
                 raise Untranslatable("__exit__ returns a value (it would swallow the exception)")
-            ret = "(inst, events, attr_error)"
+            ret = "(inst, events, raised)"
         if any(isinstance(n, (ast.Try, ast.With, ast.Raise, ast.While, ast.For)) for st in body for n in ast.walk(st)):
             raise Untranslatable(f"control flow outside the subset in {fn.name}")
         code = ct.block(body, lambda: ret)
         if part == "pool_enter":
             sig = "(h : PoolH) (inst : CtxInst) : PoolH × CtxInst × Option Nat"
-            pre = "let events : List Model.PoolEv := []\nlet attr_error : Bool := false\n"
+            pre = "let events : List Model.PoolEv := []\nlet raised : Bool := false\n"
         else:
             sig = "(h : PoolH) (inst : CtxInst) : CtxInst × List Model.PoolEv × Bool"
-            pre = "let events : List Model.PoolEv := []\nlet attr_error : Bool := false\n"
+            pre = "let events : List Model.PoolEv := []\nlet raised : Bool := false\n"
         text = (f"/-- translated from `{spec['py']}` (`h` = the handler's attributes, `inst` = the Aspire instance's; `partial(...)` is a\n"
-                f"    fresh callable token; a method call on an absent pool sets the AttributeError flag) -/\n"
+                f"    fresh callable token; `self.pool.close()` / `.join()` raise when there is no pool or when `h.close_raises` / `h.join_raises`\n"
+                f"    says the pool's shutdown fails, and nothing after a raising call is executed: the Boolean result) -/\n"
                 f"def {name} {sig} :=\n{indent(pre + code)}\n")
         lines = [fn.lineno, fn.end_lineno]
     elif part in ("auto_enter", "auto_finally"):
